@@ -2,6 +2,8 @@ import AtreeModel.StorageOps
 import AtreeModel.Gen.Facts
 import AtreeProofs.StorageLemmas
 import AtreeProofs.CommitLemmas
+import AtreeProofs.StorageLemmas2
+import AtreeProofs.StorageExample
 /-
   C03 — Commits are durable and complete; uncommitted state never reaches the ledger.
   PROPERTY THEOREMS (storage level).  The container level ("every slab whose content changed was
@@ -22,13 +24,17 @@ def isCommit : Op σ → Bool
     the ledger exactly as it was (same association list, not just the same lookups). -/
 theorem only_commit_touches_ledger (s : St σ β) (op : Op σ) (h : isCommit op = false) :
     (St.step c s op).1.base = s.base := by
-  sorry
+  apply step_base_of_not_commit c s op
+  cases op <;> first | rfl | exact h
 
 /-- … hence any history without commits leaves the ledger untouched. -/
 theorem uncommitted_never_reaches_ledger (s : St σ β) (ops : List (Op σ))
     (h : ∀ op ∈ ops, isCommit op = false) :
     (St.run c s ops).base = s.base := by
-  sorry
+  apply run_base_of_no_commit c ops s
+  intro op hop
+  have := h op hop
+  cases op <;> first | rfl | exact this
 
 /-- Durability: after a successful commit, a brand-new storage opened over the same ledger sees,
     for every owned identifier, exactly the slab that was visible at commit time (`Retrieve`
@@ -39,7 +45,17 @@ theorem commit_durable_on_reopen (hc : RoundTrip c) (s : St σ β) (h : Inv c s)
     let fresh : St σ β := St.fresh r.st.base r.st.alloc
     r.err = none ∧ fresh.view c id = s.view c id ∧
     ∃ fresh', fresh.retrieve c id = .ok (s.view c id, fresh') := by
-  sorry
+  intro r fresh
+  have hr : r = commitW c .det (fun _ => false) [] [] s := rfl
+  obtain ⟨h1, h2, _⟩ := commitW_spec c hc .det (fun _ => false) [] [] s h
+  obtain ⟨g1, g2, _⟩ := commitW_complete c hc .det (fun _ => false) (fun _ => rfl) [] [] s h hne
+  rw [← hr] at h1 h2 g1 g2
+  have hview : fresh.view c id = s.view c id := by
+    rw [view_fresh]
+    exact h2.committed_eq_view h1 g2 id hown
+  refine ⟨g1, hview, ?_⟩
+  obtain ⟨s', hs', _⟩ := retrieve_spec c fresh (inv_fresh c r.st h1) id
+  exact ⟨s', by rw [hs', hview]⟩
 
 /-- Crash recovery: commit, then any history without a commit, then abandon the in-memory storage
     at any point: the reopened storage shows precisely the state of the last successful commit. -/
@@ -49,12 +65,21 @@ theorem crash_recovers_last_commit (hc : RoundTrip c) (s : St σ β) (h : Inv c 
     let later := St.run c committed ops
     let reopened : St σ β := St.fresh later.base later.alloc
     reopened.view c id = s.view c id := by
-  sorry
+  intro committed later reopened
+  have hr : committed = (commitW c .det (fun _ => false) [] [] s).st := rfl
+  obtain ⟨h1, h2, _⟩ := commitW_spec c hc .det (fun _ => false) [] [] s h
+  obtain ⟨_, g2, _⟩ := commitW_complete c hc .det (fun _ => false) (fun _ => rfl) [] [] s h hne
+  rw [← hr] at h1 h2 g2
+  have hbase : later.base = committed.base :=
+    uncommitted_never_reaches_ledger c committed ops hno
+  show (St.fresh later.base later.alloc : St σ β).view c id = s.view c id
+  rw [view_fresh, hbase]
+  exact h2.committed_eq_view h1 g2 id hown
 
 /-- Slabs owned by the temporary (zero) address are never written, in any history. -/
 theorem temp_never_written (hc : RoundTrip c) (ops : List (Op σ)) (id : SlabID) (ht : id.isTemp = true) :
     AList.find? (St.run c (St.init : St σ β) ops).base id = none := by
-  sorry
+  exact (inv_run c hc ops _ (inv_init c)).noTempBase id ht
 
 /-- The premise that ties `only_commit_touches_ledger` to the code: in the source, the only
     functions that call `baseStorage.Store` / `baseStorage.Remove` are the three commit functions
@@ -62,6 +87,71 @@ theorem temp_never_written (hc : RoundTrip c) (ops : List (Op σ)) (id : SlabID)
 theorem base_writes_only_in_commit_functions :
     Gen.baseStoreCallers = ["PersistentSlabStorage.FastCommit", "PersistentSlabStorage.NondeterministicFastCommit", "PersistentSlabStorage.commit"] ∧
     Gen.baseRemoveCallers = ["PersistentSlabStorage.FastCommit", "PersistentSlabStorage.NondeterministicFastCommit", "PersistentSlabStorage.commit"] := by
-  sorry
+  exact ⟨rfl, rfl⟩
+
+/-! ### Non-vacuity
+
+The hypotheses (`RoundTrip`, `Inv`, `NoEncodeFailure`) hold together on `Example.exSt`
+(AtreeProofs/StorageExample.lean: pending store `1.1 ↦ 5`, pending deletion `1.2`, pending temporary
+slab `0.1`, cached `1.3`, committed `1.2`, `1.3`, `1.4`).  The theorems are instantiated on it and
+the instances are checked against direct evaluation of the model. -/
+section NonVacuity
+open Atree.Example
+
+example : RoundTrip natCodec ∧ Inv natCodec exSt ∧ NoEncodeFailure natCodec exSt :=
+  ⟨roundTrip, inv, noEncodeFailure exSt⟩
+
+/-- A history without commits (stores, removes, reads, preload, cache drop, re-creation). -/
+def laterOps : List (Op Nat) :=
+  [.store ⟨1, 1⟩ 6, .remove ⟨1, 4⟩, .retrieve ⟨1, 3⟩, .preload [⟨1, 4⟩, ⟨1, 3⟩], .dropCache,
+   .store ⟨1, 9⟩ 1, .retrieveIgnoringDeltas ⟨1, 4⟩ true, .genID 1]
+
+example : ∀ op ∈ laterOps, isCommit op = false := by decide
+
+/-- `only_commit_touches_ledger` is not true of commits: the commit of `exSt` changes the ledger. -/
+example : (St.step natCodec exSt (.commit .det [] [] [])).1.base ≠ exSt.base := by decide
+
+/-- … while the commit-free history changes the view but leaves the ledger alone. -/
+example : (St.run natCodec exSt laterOps).base = exSt.base :=
+  uncommitted_never_reaches_ledger natCodec exSt laterOps (by decide)
+example : (St.run natCodec exSt laterOps).view natCodec ⟨1, 1⟩ = some 6 ∧
+    exSt.view natCodec ⟨1, 1⟩ = some 5 ∧ exSt.committed natCodec ⟨1, 1⟩ = none := by decide
+
+/-- Durability on reopen: the theorem's instance and the same facts by evaluation. -/
+example := commit_durable_on_reopen natCodec roundTrip exSt inv (noEncodeFailure exSt) ⟨1, 1⟩ rfl
+example :
+    let r := exSt.fastCommit natCodec (fun _ => false)
+    let fresh : St Nat Nat := St.fresh r.st.base r.st.alloc
+    r.err = none ∧ fresh.view natCodec ⟨1, 1⟩ = some 5 ∧ fresh.view natCodec ⟨1, 2⟩ = none ∧
+    fresh.view natCodec ⟨1, 4⟩ = some 9 ∧ exSt.view natCodec ⟨1, 2⟩ = none := by decide
+
+/-- Crash recovery: commit `exSt`, run the commit-free history (which overwrites `1.1`, deletes
+    `1.4`, creates `1.9`), crash: the reopened storage shows the state of the commit. -/
+example :
+    let committed := (exSt.fastCommit natCodec (fun _ => false)).st
+    let later := St.run natCodec committed laterOps
+    let reopened : St Nat Nat := St.fresh later.base later.alloc
+    later.view natCodec ⟨1, 1⟩ = some 6 ∧ reopened.view natCodec ⟨1, 1⟩ = some 5 ∧
+    later.view natCodec ⟨1, 4⟩ = none ∧ reopened.view natCodec ⟨1, 4⟩ = some 9 ∧
+    later.view natCodec ⟨1, 9⟩ = some 1 ∧ reopened.view natCodec ⟨1, 9⟩ = none ∧
+    reopened.view natCodec ⟨1, 2⟩ = none := by decide
+example := crash_recovers_last_commit natCodec roundTrip exSt inv (noEncodeFailure exSt) laterOps
+  (by decide) ⟨1, 1⟩ rfl
+
+/-- The restriction to owned identifiers is necessary: the pending temporary slab `0.1` is visible
+    before the crash and gone afterwards. -/
+example :
+    let committed := (exSt.fastCommit natCodec (fun _ => false)).st
+    exSt.view natCodec ⟨0, 1⟩ = some 8 ∧
+    (St.fresh committed.base committed.alloc : St Nat Nat).view natCodec ⟨0, 1⟩ = none := by decide
+
+/-- `temp_never_written` on the history that builds `exSt` (it stores the temporary slab `0.1`)
+    followed by a commit. -/
+example : AList.find? (St.run natCodec (St.init : St Nat Nat) (exOps ++ [.commit .det [] [] []])).base ⟨0, 1⟩ = none :=
+  temp_never_written natCodec roundTrip _ ⟨0, 1⟩ rfl
+example : AList.find? (St.run natCodec (St.init : St Nat Nat) (exOps ++ [.commit .det [] [] []])).base ⟨1, 1⟩ = some 5 := by
+  decide
+
+end NonVacuity
 
 end Atree.C03
